@@ -163,6 +163,63 @@ var boundaryPool = []interface{}{nil, nilIntPtr, 0, "", struct{}{}, int64(0), fa
 
 func boundaryKey(seed int) interface{} { return boundaryPool[seed%len(boundaryPool)] }
 
+// the SAME numeric value under different dynamic types: pairwise distinct interface{} keys (Go's map semantics), so
+// holding one never blocks another and entries / counts are per key.  The first sameValueGrp kinds are the ones
+// remap.ToBytes / SimpleIndex can route (the sharded interface-keyed lockers panic on the others before touching any
+// state); equal values of one width land in the same shard under both routings.
+type myInt int64
+type wrapInt struct{ v int64 }
+type hitInt int64
+
+func (h hitInt) Hit() uint64 { return uint64(h) }
+
+const sameValueGrp = 11
+
+func sameValueKey(seed int) interface{} {
+	v := seed / 100
+	switch seed % 100 {
+	case 0:
+		return int64(v)
+	case 1:
+		return uint64(v)
+	case 2:
+		return int32(v)
+	case 3:
+		return uint32(v)
+	case 4:
+		return int16(v)
+	case 5:
+		return uint16(v)
+	case 6:
+		return int8(v)
+	case 7:
+		return uint8(v)
+	case 8:
+		return v
+	case 9:
+		return uint(v)
+	case 10:
+		return fmt.Sprint(v)
+	case 11:
+		return uintptr(v)
+	case 12:
+		return float64(v)
+	case 13:
+		return myInt(v)
+	case 14:
+		return wrapInt{int64(v)}
+	case 15:
+		return [1]int64{int64(v)}
+	case 16:
+		return hitInt(v)
+	case 17:
+		return float32(v)
+	}
+	return v != 0
+}
+
+const sameValueKinds = 19
+
 func (c lockerCfg) keyDesc() []string {
 	out := make([]string, len(c.Seeds))
 	for i, s := range c.Seeds {
@@ -173,6 +230,8 @@ func (c lockerCfg) keyDesc() []string {
 			out[i] = fmt.Sprintf("%q", strKey(s))
 		case "boundary":
 			out[i] = fmt.Sprintf("%T(%#v)", boundaryKey(s), boundaryKey(s))
+		case "samevalue":
+			out[i] = fmt.Sprintf("%T(%v)", sameValueKey(s), sameValueKey(s))
 		default:
 			out[i] = fmt.Sprintf("%T(%v)", mixedKey(s), mixedKey(s))
 		}
@@ -193,6 +252,8 @@ func build(c lockerCfg) lockerAPI {
 				kv[i] = strKey(s)
 			case "boundary":
 				kv[i] = boundaryKey(s)
+			case "samevalue":
+				kv[i] = sameValueKey(s)
 			default:
 				kv[i] = mixedKey(s)
 			}
